@@ -13,7 +13,8 @@ REPO = os.environ.get("VERIF_REPO", "/repo")
 WORK = os.path.join(VERIF, "work")
 HARNESS = os.path.join(VERIF, "harness")
 TARGET = os.path.join(WORK, "target")
-EVIDENCE = os.path.join(VERIF, "evidence")
+# bin/try_seeded points this elsewhere so that runs against a deliberately broken tree never overwrite the evidence of the real one
+EVIDENCE = os.environ.get("VERIF_EVIDENCE_DIR") or os.path.join(VERIF, "evidence")
 REPLAY = os.path.join(WORK, "replay")
 NCPU = min(16, os.cpu_count() or 4)
 
